@@ -1,0 +1,6 @@
+//go:build !verif
+// +build !verif
+
+package memory
+
+func verifHook(string, uintptr, uintptr) {}
